@@ -18,12 +18,6 @@ func verifKeys(m map[string]bool) []string {
 	return r
 }
 
-// VerifRoundUp exposes roundUp.
-func VerifRoundUp(x float64) float64 { return roundUp(x) }
-
-// VerifSeverity exposes severity.
-func VerifSeverity(x float64) Severity { return severity(x) }
-
 // VerifNames returns the sorted names recorded by decodeOne (nil for a nil receiver).
 func (bm *Base) VerifNames() []string {
 	if bm == nil {
